@@ -12,8 +12,8 @@
 (* After EVERY call the complete state of both solvers as ModularAct.tla predicts it is recorded.  The laws:         *)
 (*   Settles        on a network of the class (see ModularAct!StdClass / FastClass), once Need(net) sweeps / steps   *)
 (*                  have run since the last LoadSensors (or a Relax found a step that changed nothing), the outputs  *)
-(*                  equal the topological definition MTopoEval and the call did not fail - for each solver, hence    *)
-(*                  the two solvers agree with each other;                                                           *)
+(*                  equal the topological definition MTopoEval and the call did not fail (calls refused by design    *)
+(*                  apart) - for each solver, hence the two solvers agree with each other;                           *)
 (*   FlushRestores  right after Flush the ordinary nodes / the signal arrays are those of a fresh instance;          *)
 (*   SuffixEqual    whatever the history, after every suffix call everything observable through the API coincides    *)
 (*                  with the fresh twin;                                                                             *)
@@ -21,8 +21,8 @@
 (*                  + control links (in and out), when no bias links were merged or cancelled;                       *)
 (*   DepthTwoWays   the modular MaxActivationDepth as transcribed = the largest edge count among the minimum-weight  *)
 (*                  input-output paths (explicit path sets);                                                         *)
-(*   Refusals       RecursiveSteps fails on both solvers and changes nothing; so does a request for zero steps      *)
-(*                  (standard solver: error; fast solver: (false, nil)).                                              *)
+(*   Refusals       RecursiveSteps fails on both solvers and changes nothing; so does a request for zero steps       *)
+(*                  (standard solver: error; fast solver: (false, nil)).                                             *)
 (* Cases printed: "net" at sealing (static facts), "hist" at the flush (calls, predicted observations, the flushed    *)
 (* state), "suffix" at the end of a suffix (calls, predicted observations of the flushed instance).                  *)
 EXTENDS ModularAct, Json, SequencesExt
